@@ -48,6 +48,9 @@ def gen_step(rng, d, n):
     if op == 'extend':
         s['vs'] = [rand_item(rng, d) for _ in range(rng.randrange(0, 4))]
         if rng.random() < 0.15: s['as_array'] = rng.choice([2, 4])
+    if op in ('extend', 'setslice') and rng.random() < 0.22 and not s.get('as_array'):
+        # the values given as a bytes-like object (bytes, bytearray, memoryview of every item kind): an ordinary iterable of ints (floats, bools)
+        s['operand'], s['vs'] = buf_operand(rng, d, op, len(s['vs']) if rng.random() < 0.6 else rng.randrange(0, 5))
     if op == 'insert': s.update(i=idx(), v=rand_item(rng, d))
     if op == 'count': s['v'] = rand_item(rng, d)
     if op == 'astype': s['d'] = rng.choice(['uint8', 'int16', 'hex4', 'float16'] * 2 + REFUSED_DTYPES)
@@ -94,9 +97,184 @@ def gen_cases(rng, tier):
         n = rng.randrange(0, 7)
         yield {'op': 'program', 'dtype': d, 'items': [rand_item(rng, d) for _ in range(n)], 'trail': rand_bits(rng, rng.choice([0, 0, 0, 1, 2, 3])),
                'steps': [gen_step(rng, d, n) for _ in range(rng.randrange(1, 15))], 'seed': rng.randrange(1 << 30)}
+    # bytes-like operands: extend / slice assignment (any step) take them as iterables of ints, one item per value, for EVERY dtype (the list model decides what fits);
+    # as an initializer they are raw data (doc/array.rst). Programs, so that the same Array meets lists and buffers in turn; both bit numberings; trailing bits.
+    for _ in range(N // 3):
+        d = rng.choice(BUF_DTYPES) if rng.random() < 0.85 else rng.choice(DTYPES)
+        n = rng.randrange(0, 6)
+        def bstep():
+            o = rng.choice(['extend', 'extend', 'setslice', 'setslice', 'setslice', 'append', 'pop', 'reverse', 'getslice', 'astype'])
+            st = gen_step(rng, d, n)
+            while st['op'] != o: st = gen_step(rng, d, n)
+            if o in ('extend', 'setslice') and not str(st.get('operand', '')).startswith('buf:'):
+                st.pop('as_array', None)
+                if o == 'setslice' and rng.random() < 0.5:
+                    k = st['k']; m = len(range(*slice(k[0], k[1], k[2] or 1).indices(n)))          # as many values as the slice has positions (needed for extended slices)
+                else: m = rng.randrange(0, 5)
+                st['operand'], st['vs'] = buf_operand(rng, d, o, m)
+            return st
+        yield {'op': 'program', 'dtype': d, 'items': [rand_item(rng, d) for _ in range(n)], 'trail': rand_bits(rng, rng.choice([0, 0, 0, 0, 1, 2])), 'lsb0': rng.random() < 0.2,
+               'steps': [bstep() for _ in range(rng.randrange(1, 6))], 'seed': rng.randrange(1 << 30)}
+    # ... and a grid: every kind of object x every class of dtype (8 bits signed / unsigned / float / not a number, narrower, wider, little-endian, floats, bool, struct codes) x
+    # extend / slice assignment / extended slice assignment, as the only step of the program
+    dclasses = [['int8', '=b'], ['uint8', '=B'], ['p4binary', 'e4m3mxfp', 'e5m2mxfp', 'mxint', 'p3binary'], ['hex8', 'bytes1', 'bin8', 'bits8'], ['uint5', 'int7', 'uint3', 'e2m1mxfp', 'e3m2mxfp', 'oct6', 'hex4'],
+                ['uint12', 'int16', 'uint16', 'intbe24', 'uint32', 'int64', '>h'], ['uintle16', 'intle32', 'uintne32', '<H'], ['float16', 'float32', 'floatle64', 'bfloat', '>f', '<d'], ['bool']]
+    for kind in BUF_BYTE_KINDS + BUF_ITEM_KINDS + ['bits:' + k for k in BUF_BITS_KINDS] + BUF_ARRAY_KINDS:
+        for dc in dclasses:
+            for o in ('extend', 'setslice', 'extslice'):
+                if tier == 'quick' and rng.random() < 0.55: continue
+                if kind in BUF_ARRAY_KINDS and o == 'extend': continue
+                d = rng.choice(dc); n = rng.randrange(0, 5)
+                items = [rand_item(rng, d) for _ in range(n)]
+                if o == 'extend': st = {'op': 'extend', 'vs': None}; m = rng.randrange(1, 5)
+                elif o == 'setslice': a_ = rng.randrange(0, n + 1); st = {'op': 'setslice', 'k': [a_, rng.randrange(a_, n + 1), None]}; m = rng.randrange(0, 4)
+                else:
+                    step = rng.choice([2, -1, -2, 3]); st = {'op': 'setslice', 'k': [None, None, step]}; m = len(range(*slice(None, None, step).indices(n)))
+                st['operand'], st['vs'] = buf_operand(rng, d, 'setslice' if kind in BUF_ARRAY_KINDS else o, m, kind=kind)
+                yield {'op': 'program', 'dtype': d, 'items': items, 'trail': rand_bits(rng, min(dtype_info(d)[1] - 1, rng.choice([0, 0, 0, 1]))) if o != 'extend' else '', 'steps': [st], 'seed': 1}
+    for _ in range(N // 6):
+        d = rng.choice(BUF_DTYPES + DTYPES)
+        kind, vs = buf_operand(rng, d, 'init', rng.randrange(0, 7))
+        lsb0 = rng.random() < 0.2          # (trailing bits are attached at the other end of the data under lsb0: no trailing bits there)
+        if kind.startswith('buf:bits:'): lsb0 = False
+        yield {'op': 'bufinit', 'dtype': d, 'buf': kind[4:], 'vs': vs, 'trail': '' if lsb0 else rand_bits(rng, rng.choice([0, 0, 1, 3])), 'lsb0': lsb0}
+    # every arithmetic / shift operator between two Arrays, pure and augmented, for every promotion outcome (left wins, right wins, tie, refused), with results that fit
+    # and that do not, zero divisors, negative shifts, different lengths, the Array itself as right operand: the name bound afterwards is an Array of the promoted dtype
+    # holding op(x, y) item by item; on failure both operands are as before. Comparisons give a bool Array.
+    pairs = [(d1, d2) for d1 in PROMO for d2 in PROMO]
+    # a grid, so that no run misses a stratum: every operator x every promotion outcome x (results that fit | only the last item fails), augmented form (and the pure form now and then)
+    strata = {'same int': [(d, d) for d in ('uint8', 'int8', 'uint16', 'int16', 'uint5', 'int7', 'uintle16', 'int32')], 'same float': [(d, d) for d in ('float16', 'float32', 'float64', 'bfloat', 'floatle32')],
+              'left int': [('int16', 'uint8'), ('uint16', 'uint8'), ('int8', 'uint16'), ('int32', 'int8'), ('uint12', 'uint5'), ('int7', 'uint5'), ('int16', 'intle16')],
+              'right int': [('uint8', 'int16'), ('uint8', 'uint16'), ('uint16', 'int8'), ('int8', 'int32'), ('uint5', 'uint12'), ('uint5', 'int7'), ('uintle16', 'int32')],
+              # the winner has the same item size as the loser: only the interpretation of the bits changes
+              'left int same size': [('int8', 'uint8'), ('int16', 'uint16'), ('int16', 'uintle16'), ('int7', 'uint7'), ('uint16', 'uintle16'), ('int32', 'uint32')],
+              'right int same size': [('uint8', 'int8'), ('uint16', 'int16'), ('uintle16', 'int16'), ('uint7', 'int7'), ('uint32', 'int32'), ('uint12', 'int12')],
+              'left float': [('float32', 'uint8'), ('float16', 'int32'), ('float64', 'float32'), ('float32', 'float16'), ('bfloat', 'int8'), ('floatle32', 'int8')],
+              'right float': [('uint8', 'float32'), ('int32', 'float16'), ('float32', 'float64'), ('float16', 'float32'), ('int8', 'bfloat'), ('uint5', 'float16'), ('int8', 'floatle32'), ('bool', 'float16')],
+              'left float same size': [('float16', 'uint16'), ('float32', 'int32'), ('bfloat', 'int16'), ('float16', 'bfloat'), ('float32', 'floatle32'), ('e4m3mxfp', 'uint8'), ('float64', 'int64')],
+              'right float same size': [('uint16', 'float16'), ('int32', 'float32'), ('int16', 'bfloat'), ('uint8', 'e4m3mxfp'), ('int8', 'p4binary'), ('uint64', 'float64'), ('uintle32', 'float32')]}
+    for f in BETWEEN_ARITH:
+        for name_, ps in strata.items():
+            for mode in ('fit', 'late'):
+                if mode == 'late' and 'float' in name_: continue
+                for rep in range((2 if mode == 'late' else 1) if tier == 'quick' else 6):
+                    d1, d2 = rng.choice(ps)
+                    yield between_case(rng, d1, d2, f, inplace=True, mode=mode)
+                    if rng.random() < 0.3: yield between_case(rng, d1, d2, f, inplace=False, mode=mode)
+    if tier != 'quick':
+        for d1, d2 in pairs:
+            for f in BETWEEN_ARITH:
+                yield between_case(rng, d1, d2, f, inplace=True)
+                if rng.random() < 0.5: yield between_case(rng, d1, d2, f, inplace=False)
+    for _ in range(N * 5 // 4):
+        d1, d2 = rng.choice(pairs) if rng.random() < 0.55 else (rng.choice(BETWEEN_NUM), rng.choice(BETWEEN_NUM))
+        if rng.random() < 0.15: d2 = d1          # the same dtype on both sides (no promotion: the place for a genuinely in-place implementation)
+        r = rng.random()
+        yield between_case(rng, d1, d2, rng.choice(BETWEEN_ARITH) if r < 0.85 else rng.choice(BETWEEN_CMP), inplace=r < 0.55)
 
 PROMO = ['uint8', 'uint5', 'int7', 'int16', 'uint16', 'int8', 'float16', 'float32', 'float64', 'bfloat', 'e4m3mxfp', 'e5m2mxfp', 'e3m2mxfp', 'e2m3mxfp', 'e2m1mxfp', 'e8m0mxfp', 'mxint',
          'p4binary', 'p3binary', 'bool', 'uintle16', 'intbe16', 'hex4', 'bytes1']
+
+# ---- bytes-like operands -----------------------------------------------------------------------------------------------------------------
+BUF_DTYPES = ['int8', 'int8', 'uint8', 'hex8', 'bytes1', 'bin8', 'bits8', 'oct6', 'e5m2mxfp', 'e2m1mxfp', 'intle16', 'uint8', 'int8', 'uint5', 'int7', 'uint3', 'uint12', 'int16', 'uint16', 'uintle16', 'intbe24', 'uintne32', 'int32', 'uint64', 'float16', 'float32', 'floatle64', 'bfloat', 'p4binary',
+              'e4m3mxfp', 'mxint', 'bool', '>h', '<H', '=B', '>f']
+BUF_BYTE_KINDS = ['bytes', 'bytearray', 'mv', 'mv_w', 'mv_strided', 'mv_sub', 'mv_rev', 'mv_cast:B', 'bytesio_buf']
+BUF_ITEM_KINDS = ['mv_cast:b', 'mv_array:b', 'mv_array:H', 'mv_cast:H', 'mv_array:h', 'mv_array:I', 'mv_array:q', 'mv_strided:H', 'mv_array:d', 'mv_array:f', 'mv_cast:?']
+BUF_BITS_KINDS = ['Bits', 'BitArray', 'ConstBitStream', 'BitStream', 'BitStream@1']          # '@1': a stream whose position is not 0 (the position is not part of its content)
+BUF_ARRAY_KINDS = ['array:B', 'array:H', 'array:b', 'array:d']          # array.array itself: an iterable for slice assignment (extend and the constructor have their own documented rule for it)
+
+def buf_operand(rng, d, op, m, kind=None):
+    """('buf:<kind>', values) with list(the object) == values"""
+    name, w = dtype_info(d)
+    r = rng.random()
+    kinds = BUF_BYTE_KINDS if r < 0.65 else (BUF_ITEM_KINDS if r < 0.92 or op != 'setslice' else BUF_ARRAY_KINDS)
+    if kind is None:
+        kind = rng.choice(kinds)
+        if rng.random() < (0.4 if name == 'bool' else 0.04): kind = 'bits:' + rng.choice(BUF_BITS_KINDS)          # a bitstring: an iterable of bools (as an initializer: the data)
+    if kind.startswith('bits:'): return 'buf:' + kind, [rng.random() < 0.5 for _ in range(m)]
+    code = kind.split(':')[1] if ':' in kind else 'B'
+    small = rng.random() < 0.55          # values that fit a narrow or signed dtype as well
+    edges = [x for x in ((1 << w) - 1, 1 << w, (1 << (w - 1)) - 1, 1 << (w - 1), -(1 << (w - 1)), -(1 << (w - 1)) - 1) if w <= 64]          # at and just outside the limits of the dtype
+    def val():
+        if code in 'df': return rng.choice([0.0, 1.0, -1.5, 0.25, 2.0, 3.0, -0.5, 100.0])
+        if code == '?': return rng.random() < 0.5
+        bits = {'B': 8, 'b': 8, 'H': 16, 'h': 16, 'I': 32, 'q': 64}[code]
+        lo, hi = (-(1 << (bits - 1)), (1 << (bits - 1)) - 1) if code in 'bhq' else (0, (1 << bits) - 1)
+        if small: return rng.randrange(max(lo, -2), min(hi, (1 << max(1, min(w, 8) - 1)) - 1) + 1)
+        return rng.choice([lo, hi, 0, 1, 127, min(hi, 128), min(hi, 255), min(hi, 256), rng.randrange(lo, hi + 1)] + [e for e in edges if lo <= e <= hi] * 2)
+    return 'buf:' + kind, [val() for _ in range(m)]
+
+def mk_buf(kind, vs):
+    """the bytes-like object whose items are vs"""
+    import array, struct, io
+    base, _, code = kind.partition(':')
+    if base == 'bits':
+        import bitstring
+        b = ''.join('1' if v else '0' for v in vs)
+        o = getattr(bitstring, code.split('@')[0])(bin=b)
+        if list(o) != list(vs): o = getattr(bitstring, code.split('@')[0])(bin=b[::-1])          # (under lsb0 a bitstring is enumerated from its other end)
+        if '@' in code and len(o): o.pos = 1
+    elif base in ('array', 'mv_array'):
+        a = array.array(code, vs); o = a if base == 'array' else memoryview(a)
+    elif base == 'mv_cast': o = memoryview(struct.pack(f'={len(vs)}{code}', *vs)).cast(code)
+    elif base == 'mv_strided' and code:
+        a = array.array(code, [x for v in vs for x in (v, 0xa5)]); o = memoryview(a)[::2]
+    elif base == 'bytes': o = bytes(vs)
+    elif base == 'bytearray': o = bytearray(vs)
+    elif base == 'mv': o = memoryview(bytes(vs))
+    elif base == 'mv_w': o = memoryview(bytearray(vs))
+    elif base == 'mv_strided': o = memoryview(bytes(x for v in vs for x in (v, 0xa5)))[::2]
+    elif base == 'mv_sub': o = memoryview(bytearray(b'\xff\xfe' + bytes(vs) + b'\xfd'))[2:-1]
+    elif base == 'mv_rev': o = memoryview(bytes(vs)[::-1])[::-1]
+    elif base == 'bytesio_buf': o = io.BytesIO(bytes(vs)).getbuffer()
+    else: raise AssertionError(kind)
+    assert list(o) == list(vs), 'harness: the buffer does not hold the intended items'
+    return o
+
+# ---- operators between two Arrays -----------------------------------------------------------------------------------------------------------
+BETWEEN_ARITH = ['add', 'sub', 'mul', 'floordiv', 'truediv', 'mod', 'lshift', 'rshift']
+BETWEEN_CMP = ['lt', 'gt', 'le', 'ge', 'eq', 'ne']
+BETWEEN_NUM = ['uint8', 'int8', 'uint5', 'int7', 'uint16', 'int16', 'uint12', 'int10', 'uint4', 'int32', 'uint32', 'uintle16', 'intle16', 'intbe16', 'float16', 'float32', 'float64', 'floatle32', 'bfloat', 'bool']
+# Sub-classes the unchanged library does not satisfy (reported, kept switched off): `a == b` / `a != b` between Arrays of DIFFERENT dtypes raise TypeError
+# (Array._eq_ne rebuilds the right operand as Array(self.dtype, other), which refuses an Array of another dtype) instead of comparing item by item like < <= > >= do.
+KNOWN_OPEN = set()       # 'eq_ne_between_different_dtypes' (== / != between Arrays of different dtypes raised TypeError) was repaired in /repo as D66
+
+def between_case(rng, d1, d2, f, inplace, mode=None):
+    from bitstring import Array
+    def vals(d, n, right):
+        t = Array(d).dtype; w = t.bitlength
+        if t.return_type is float:
+            if t.name == 'e8m0mxfp': pool = [1.0, 2.0, 0.5, 4.0, 1.0]
+            else: pool = [0.5, 1.0, 1.5, 2.0, 3.0, 4.0, 0.0, -0.0] + ([-1.5, -0.5, -2.0, 0.25, 6.0] if t.name != 'e8m0mxfp' else [])
+            if right and f in ('floordiv', 'truediv', 'mod') and rng.random() < 0.8: pool = [x for x in pool if x != 0]
+            return [rng.choice(pool) for _ in range(n)]
+        if t.return_type is bool: return [rng.random() < 0.5 for _ in range(n)]
+        if t.return_type is int:
+            lo, hi = (-(1 << (w - 1)), (1 << (w - 1)) - 1) if t.is_signed else (0, (1 << w) - 1)
+            if right and f in ('lshift', 'rshift'): pool = [0, 1, 2, 3, min(hi, w - 1), min(hi, w), min(hi, 70)] + ([-1] if lo < 0 and rng.random() < 0.2 else [])
+            elif right and f in ('floordiv', 'truediv', 'mod'): pool = [1, 2, 3, min(hi, 7), max(lo, -2), max(lo, -1)] + ([0] if rng.random() < 0.2 else [])
+            else: pool = [0, 1, 2, 3, 5, hi, lo, hi // 2, max(lo, -1), max(lo, -3), rng.randrange(lo, hi + 1)]
+            if rng.random() < 0.6 or mode == 'fit': pool = [x for x in pool if -8 <= x <= 8] or [0]          # mostly results that fit
+            return [rng.choice(pool) for _ in range(n)]
+        return [rand_item(rng, d) for _ in range(n)]
+    n = rng.choice([0, 1, 2, 3, 3, 4, 5]) if mode is None else rng.choice([2, 3, 4])
+    same = rng.random() < 0.06 and mode is None
+    if same: d2 = d1
+    n2 = n if rng.random() < 0.93 or mode else n + rng.choice([1, -1, 2])
+    v1, v2 = vals(d1, n, same), vals(d2, max(0, n2), True)
+    t1, t2 = Array(d1).dtype, Array(d2).dtype
+    if n >= 2 and n2 == n and (rng.random() < 0.22 if mode is None else mode == 'late') and t1.return_type is int and t2.return_type is int:
+        # the first items are fine, the LAST one fails (zero divisor, negative shift, a result beyond the promoted dtype): nothing may have been stored by then
+        lim = lambda t: ((-(1 << (t.bitlength - 1)), (1 << (t.bitlength - 1)) - 1) if t.is_signed else (0, (1 << t.bitlength) - 1))
+        (lo1, hi1), (lo2, hi2) = lim(t1), lim(t2)
+        v1 = [max(lo1, min(hi1, x)) for x in [rng.choice([5, 6, 7]) for _ in range(n)]]; v2 = [max(lo2, min(hi2, x)) for x in [rng.choice([1, 2] if f == 'lshift' else [2, 3]) for _ in range(n)]]          # (every result differs from the item it would replace)
+        if f in ('floordiv', 'truediv', 'mod'): v2[-1] = 0
+        elif f in ('lshift', 'rshift'): v2[-1] = -1 if lo2 < 0 else (min(hi2, 70) if f == 'lshift' else v2[-1])
+        elif f == 'sub': v1[-1], v2[-1] = lo1, hi2
+        else: v1[-1], v2[-1] = hi1, hi2
+    c = {'op': 'between', 'd1': d1, 'v1': v1, 'd2': d2, 'v2': v2, 'f': f, 'inplace': bool(inplace), 'self': same,
+         'trail1': rand_bits(rng, min(Array(d1).dtype.bitlength - 1, rng.choice([0, 0, 0, 0, 1, 2]))) if mode is None else '', 'lsb0': rng.random() < 0.15 and mode is None}
+    return c
 
 # dtype assignments that must be refused (ValueError) and leave the Array exactly as it was: 'auto' scales (only valid at creation), zero or missing lengths
 REFUSED_DTYPES = ['auto:e4m3mxfp', 'auto:float16', 'auto:uint8', 'uint0', 'hex0', 'se', 'float', 'bytes0']
@@ -119,8 +297,11 @@ def cv(v):
 OPS = {'add': operator.add, 'sub': operator.sub, 'mul': operator.mul, 'floordiv': operator.floordiv, 'truediv': operator.truediv, 'mod': operator.mod, 'lshift': operator.lshift,
        'rshift': operator.rshift, 'and': operator.and_, 'or': operator.or_, 'xor': operator.xor, 'lt': operator.lt, 'eq': operator.eq,
        'radd': lambda a, x: x + a, 'rsub': lambda a, x: x - a, 'rmul': lambda a, x: x * a}      # scalar on the left
+OPS2 = dict(OPS, gt=operator.gt, le=operator.le, ge=operator.ge, ne=operator.ne)
 IOPS = {'add': operator.iadd, 'sub': operator.isub, 'mul': operator.imul, 'floordiv': operator.ifloordiv, 'truediv': operator.itruediv, 'mod': operator.imod, 'lshift': operator.ilshift,
         'rshift': operator.irshift, 'and': operator.iand, 'or': operator.ior, 'xor': operator.ixor}
+
+SIDE = {}          # what a step records beside its result (the twin run of a bytes-like operand); moved into the trace by run_impl
 
 def snap(a):
     return [[cv(x) for x in a.tolist()], len(a), a.data.bin, a.trailing_bits.bin, str(a.dtype)]
@@ -136,8 +317,13 @@ def apply_impl(a, st, rng):
     if op == 'setslice':
         vals = [pv(v) for v in st['vs']]
         kindo = st.get('operand')
-        if kindo in ('array', 'array_trailing'):
-            try: vals = Array(a.dtype, vals, trailing_bits=Bits('0b1') if kindo == 'array_trailing' else None)
+        if str(kindo).startswith('buf:'):
+            twin = _copy.copy(a)          # the same assignment from list(the object) on a copy: must end in the same state
+            rt = attempt(lambda: twin.__setitem__(slice(*st['k']), [pv(v) for v in st['vs']]))
+            SIDE['twin'] = [list(rt), snap(twin)]
+            vals = mk_buf(kindo[4:], st['vs'])
+        elif kindo in ('array', 'array_trailing'):
+            try: vals = Array(a.dtype, vals, trailing_bits=Bits('0b1') if kindo == 'array_trailing' and a.itemsize > 1 else None)          # (one bit is a whole item when itemsize is 1)
             except Exception: pass          # a value that does not fit: keep the list (the assignment itself must refuse it)
         elif kindo == 'tuple': vals = tuple(vals)
         elif kindo == 'generator': vals = (x for x in list(vals))
@@ -146,6 +332,11 @@ def apply_impl(a, st, rng):
     if op == 'delslice': del a[slice(*st['k'])]; return None
     if op == 'append': return a.append(pv(st['v']))
     if op == 'extend':
+        if str(st.get('operand')).startswith('buf:'):
+            twin = _copy.copy(a)
+            rt = attempt(lambda: twin.extend([pv(v) for v in st['vs']]))
+            SIDE['twin'] = [list(rt), snap(twin)]
+            return a.extend(mk_buf(st['operand'][4:], st['vs']))
         if st.get('as_array') and all(isinstance(v, int) and not isinstance(v, bool) for v in st['vs']) and str(a.dtype).startswith(('uint', 'int')):
             import bitstring
             other = Array(bitstring.Dtype(a.dtype.name, a.dtype.length, scale=st['as_array']), [v * st['as_array'] for v in st['vs']])
@@ -208,6 +399,25 @@ def run_impl(c):
             return [str(r.dtype), [cv(x) for x in r.tolist()], str(a.dtype), str(b.dtype)]
         return attempt(f)
     bitstring.options.lsb0 = bool(c.get('lsb0'))         # reset by the driver
+    if c['op'] == 'bufinit':
+        import struct
+        kind = c['buf']; code = kind.split(':')[1] if ':' in kind else 'B'
+        def f():
+            a = Array(c['dtype'], mk_buf(kind, c['vs']), trailing_bits=Bits(bin=c['trail']) if c['trail'] else None)
+            return snap(a)
+        raw = ''.join('1' if v else '0' for v in c['vs']) if kind.startswith('bits:') else ''.join(format(b, '08b') for b in struct.pack(f"={len(c['vs'])}{code}", *c['vs']))
+        return ('ok', {'raw': raw, 'r': list(attempt(f))})
+    if c['op'] == 'between':
+        def f():
+            a = Array(c['d1'], [pv(v) for v in c['v1']], trailing_bits=Bits(bin=c['trail1']) if c['trail1'] else None)
+            b = a if c['self'] else Array(c['d2'], [pv(v) for v in c['v2']])
+            before = [snap(a), snap(b)]
+            def go():
+                res = (IOPS if c['inplace'] else OPS2)[c['f']](a, b)
+                return [snap(res), res is a, type(res).__name__]
+            r = attempt(go)
+            return [before[0], before[1], list(r), snap(a), snap(b)]
+        return attempt(f)
     rng = random.Random(c['seed'])
     def build():
         return Array(c['dtype'], [pv(v) for v in c['items']], trailing_bits=Bits(bin=c['trail']) if c['trail'] else None)
@@ -217,8 +427,9 @@ def run_impl(c):
     trace = []
     for st in c['steps']:
         before = snap(a)
+        SIDE.clear()
         r = attempt(lambda: apply_impl(a, st, rng))
-        trace.append([before, list(r), snap(a)])
+        trace.append([before, list(r), snap(a)] + ([SIDE.pop('twin')] if 'twin' in SIDE else []))
     return ('ok', {'init': ['ok', snap(a) if not trace else trace[0][0]], 'trace': trace})
 
 # ---------------- reference: python list + encoder ----------------
@@ -280,11 +491,18 @@ def oracle_(c, obs):
         if obs[0] != 'ok': return None          # the result may not fit the promoted type (it raises, as documented)
         if obs[1][0] != str(exp): return f"Array({c['d1']}) {c['f']} Array({c['d2']}) has dtype {obs[1][0]}; the documented promotion gives {exp}"
         return None
+    if c['op'] == 'bufinit': return oracle_bufinit(c, obs)
+    if c['op'] == 'between': return oracle_between(c, obs)
     o = obs[1]
     if o['init'][0] != 'ok': return f"Array({c['dtype']!r}, {c['items']}) could not be built: {o['init']}"
     name, w = dtype_info(c['dtype'])
-    for st, (before, r, after) in zip(c['steps'], o['trace']):
+    for st, tr in zip(c['steps'], o['trace']):
+        before, r, after = tr[:3]
         items, n, data, trail, dt = before
+        isbuf = str(st.get('operand')).startswith('buf:')
+        if isbuf and len(tr) > 3 and (tr[3][0] != r or tr[3][1] != after) and not (r[0] == 'err' and tr[3][0][0] == 'err' and st['op'] == 'extend'):
+            return (f"Array({dt}, {str(items)[:120]}, trailing {trail!r}) {st}: a bytes-like object is an iterable of its items, yet {st['op']} from it gave {str(r)[:40]} and left "
+                    f"{after[1]} items {str(after[0])[:150]} (trailing {after[3]!r}, dtype {after[4]}); the same call with list(the object) gave {str(tr[3][0])[:40]} and left {tr[3][1][1]} items {str(tr[3][1][0])[:150]} (trailing {tr[3][1][3]!r})")
         where = f"Array({dt}, {items}, trailing {trail!r}) {st}"
         # invariants of every state
         for sname, s in (('before', before), ('after', after)):
@@ -308,7 +526,9 @@ def oracle_(c, obs):
             if op == 'extend' and not trail:
                 # like list.extend with a failing iterator: the items before the bad one may have been added
                 k = next(i for i, x in enumerate(newvals) if enc_item(dt, x) is None)
-                if after[2] not in (before[2], before[2] + ''.join(enc_item(dt, x) for x in newvals[:k])): return f"{where} raised and left {after}"
+                if c.get('lsb0'):          # the same, stated on the items (the new items sit at the other end of the data in this numbering)
+                    if E(after[0]) not in (E(L), E(L + newvals[:k])) or after[3:] != before[3:]: return f"{where} raised and left {after}"
+                elif after[2] not in (before[2], before[2] + ''.join(enc_item(dt, x) for x in newvals[:k])): return f"{where} raised and left {after}"
                 continue
             if after != before: return f"{where} raised {r[1]} and changed the Array"
             continue
@@ -340,6 +560,7 @@ def oracle_(c, obs):
                     if r[0] != 'err': return f"{where} should raise ValueError (extended slice size mismatch), got {r}"
                     if after != before: return f"{where} raised but changed the Array"
                     continue
+                if isbuf and r[0] != 'ok': return f"{where}: every value of the bytes-like object fits {dt}, the list model gives {L}; raised {r[1]}"
                 if r[0] == 'ok' and ([enc_item(dt, x) for x in its2] != [enc_item(dt, x) for x in L] or trail2 != trail): return f"{where} left {its2} / {trail2!r}, list gives {L}"
             elif op in ('append', 'extend', 'reverse'):
                 if trail:
@@ -423,7 +644,87 @@ def oracle_(c, obs):
                 if got != exp: return f"{where}: element-wise result {got}, map gives {exp}"
     return None
 
-def nontrivial(c, obs): return c['op'] == 'program' and any(s['op'] in ('setitem', 'setslice', 'delitem', 'delslice', 'append', 'extend', 'insert', 'pop', 'reverse', 'inplace_op') for s in c['steps'])
+def oracle_bufinit(c, obs):
+    """Array(dtype, bytes-like): the object's bytes are the data (doc/array.rst: 'a bytes or bytearray object ...'), followed by the trailing bits"""
+    o = obs[1]; r = o['r']
+    name, w = dtype_info(c['dtype'])
+    raw = o['raw'] + c['trail']
+    what = f"Array({c['dtype']!r}, <{c['buf']} of {c['vs']}>, trailing_bits={c['trail']!r})"
+    if r[0] != 'ok': return f"{what}: a bytes-like initializer is the Array's data; raised {r[1]}"
+    its, n, data, trail, dt = r[1]
+    if data != raw: return f"{what}: the data must be the object's {len(o['raw'])} bits + the trailing bits = {raw!r}; it is {data!r}"
+    if n != len(raw) // w or len(its) != n or (trail != raw[len(raw) - len(raw) % w:] and not c.get('lsb0')): return f"{what}: {len(raw)} bits at {w} bits per item: len {n}, {len(its)} items, trailing {trail!r}"
+    if not c.get('lsb0'):
+        for i, x in enumerate(its):
+            e = enc_item(dt, x)
+            if e is not None and x != ['f', 'nan'] and e != raw[i * w:(i + 1) * w]: return f"{what}: item {i} is {x}, its slot holds {raw[i * w:(i + 1) * w]!r}"
+    return None
+
+def oracle_between(c, obs):
+    from bitstring import Array
+    f = c['f']; sym = {'add': '+', 'sub': '-', 'mul': '*', 'floordiv': '//', 'truediv': '/', 'mod': '%', 'lshift': '<<', 'rshift': '>>', 'lt': '<', 'gt': '>', 'le': '<=', 'ge': '>=', 'eq': '==', 'ne': '!='}[f]
+    cmp_ = f in BETWEEN_CMP
+    if obs[0] != 'ok': return f"between {c}: the operands could not be built: {obs}"
+    ba, bb, r, aa, ab = obs[1]
+    what = f"Array({ba[4]}, {ba[0]}{', trailing ' + repr(ba[3]) if ba[3] else ''}) {sym}{'=' if c['inplace'] else ''} {'the same Array' if c['self'] else f'Array({bb[4]}, {bb[0]})'}{' [lsb0]' if c.get('lsb0') else ''}"
+    if cmp_ and f in ('eq', 'ne') and str(ba[4]) != str(bb[4]) and 'eq_ne_between_different_dtypes' in KNOWN_OPEN: return None
+    x = [pv(v) for v in ba[0]]; y = [pv(v) for v in bb[0]]
+    def refused(why, classes=('ValueError',)):
+        if r[0] != 'err': return f"{what}: {why}, must raise; got {str(r[1][0])[:200]}"
+        if classes and r[1] not in classes: return f"{what}: {why}, must raise {' / '.join(classes)}; raised {r[1]}"
+        if aa != ba: return f"{what}: {why}; it raised {r[1]} but the left Array is now {aa}"
+        if ab != bb: return f"{what}: {why}; it raised {r[1]} but the right Array is now {ab}"
+        return None
+    if len(x) != len(y): return refused(f"the Arrays have {len(x)} and {len(y)} items")
+    exp_dt = None if cmp_ else promo_rule(c['d1'], c['d2'])
+    if not cmp_ and exp_dt is None: return refused(f"{ba[4]} and {bb[4]} are not both integer / floating point types", ('ValueError', 'TypeError'))
+    if f == 'lshift' and any(isinstance(q, int) and q > 4096 for q in y): return None          # the reference itself would need astronomically large integers
+    try: exp = [OPS2[f](p, q) for p, q in zip(x, y)]
+    except TypeError: return refused("the Python operator does not take these items", ())
+    except (ZeroDivisionError, ValueError, OverflowError) as e: return refused(f"the Python operator fails on an item ({type(e).__name__})")
+    dts = 'bool' if cmp_ else str(exp_dt)
+    int_result_of_truediv = f == 'truediv' and not cmp_ and exp_dt.return_type is not float
+    if int_result_of_truediv and not all(float(e).is_integer() for e in exp): want = None          # a fractional quotient stored in an integer dtype: the documentation does not say how
+    else:
+        if int_result_of_truediv: exp = [int(e) for e in exp]
+        want = [enc_item(dts, cv(e)) for e in exp]
+        if None in want: return refused(f"the result {[cv(e) for e in exp]} does not fit {dts}")
+    if want is None and r[0] == 'err': return refused('(a fractional quotient for an integer dtype)', ())
+    if r[0] != 'ok': return f"{what}: the result {[cv(e) for e in exp]} fits {dts}, must succeed; raised {r[1]}"
+    res, same_obj, cls = r[1]
+    its, n, data, trail, dt = res
+    if cls != 'Array': return f"{what}: the result is a {cls}"
+    if dt != dts: return f"{what}: the result has dtype {dt} (items {its}); the documented promotion gives {dts} with items {[cv(e) for e in exp]}"
+    if n != len(x) or len(its) != n: return f"{what}: the result has {n} items {its} (data {data!r}); the operator mapped over the items gives the {len(x)} items {[cv(e) for e in exp]} of dtype {dts}"
+    if trail and not (same_obj and trail == ba[3]): return f"{what}: the result has trailing bits {trail!r}"
+    if want is not None:
+        got = [enc_item(dts, g) for g in its]
+        if got != want: return f"{what}: the result holds {its}; the operator mapped over the items gives {[cv(e) for e in exp]} (dtype {dts}, compared through their encodings)"
+        if not c.get('lsb0') and not trail and data != ''.join(want): return f"{what}: the data {data!r} is not the concatenation of the encodings {want} of {[cv(e) for e in exp]}"
+    if not c['self'] and ab != bb: return f"{what}: the right operand changed: {ab}"
+    if not same_obj and aa != ba: return f"{what}: a new Array was returned, yet the left operand changed as well: {aa}"
+    if same_obj and aa != res: return f"{what}: the object returned is the left operand, which now reads {aa}, not {res}"
+    return None
+
+def coq_between(c, obs):
+    """plain big-endian int dtypes, + - * and < ==, msb0, no trailing bits: the loop model of ArrayCases.v"""
+    if obs[0] != 'ok' or c.get('lsb0') or c['trail1'] or c['f'] not in ('add', 'sub', 'mul', 'lt', 'eq'): return None
+    ba, bb, r, aa, ab = obs[1]
+    if int_dt(ba[4]) is None or int_dt(bb[4]) is None or (r[0] == 'err' and r[1] != 'ValueError'): return None
+    from bitstring import Array
+    (T1, _), (T2, _) = cdt(Array(ba[4]).dtype), cdt(Array(bb[4]).dtype)
+    D, D2 = cbits(ba[2]), cbits(bb[2]); f = c['f']
+    if f in ('lt', 'eq'):
+        return f"rbits_eqb (arr_between_cmp {T1} {T2} {'BLt' if f == 'lt' else 'BEq'} {D} {D2}) " + (f"(Ok {cbits(r[1][0][2])})" if r[0] == 'ok' else "(Err ValueError)")
+    if r[0] == 'err': return f"between_err (arr_between_int {T1} {T2} {'B' + f.capitalize()} {D} {D2}) ValueError"
+    res_dt = int_dt(r[1][0][4])
+    if res_dt is None: return 'false'
+    return f"between_is (arr_between_int {T1} {T2} {'B' + f.capitalize()} {D} {D2}) \"{'int' if res_dt[1] else 'uint'}\" {res_dt[0]} {cbits(r[1][0][2])}"
+
+def nontrivial(c, obs):
+    if c['op'] == 'between': return c['inplace']
+    if c['op'] == 'bufinit': return True
+    return c['op'] == 'program' and any(s['op'] in ('setitem', 'setslice', 'delitem', 'delslice', 'append', 'extend', 'insert', 'pop', 'reverse', 'inplace_op') for s in c['steps'])
 def classify(c, obs): return None
 
 def cdt(t):
@@ -454,12 +755,13 @@ def coq_check(c, obs):
             return f'promo_is (promotetype {T1} {T2}) "{want[0]}" {cz(want[1])} {cz(want[2])}'
         if obs[1] == 'ValueError' and promo_rule(c['d1'], c['d2'], c.get('s1'), c.get('s2')) is None: return f'promo_err (promotetype {T1} {T2}) ValueError'
         return None
+    if c['op'] == 'between': return coq_between(c, obs)
     if c['op'] != 'program' or c.get('lsb0'): return None         # the Array model is stated for msb0 data layout
     o = obs[1]
     if o['init'][0] != 'ok': return None
     name, w = dtype_info(c['dtype'])
     terms = []
-    for st, (before, r, after) in zip(c['steps'], o['trace']):
+    for st, (before, r, after) in zip(c['steps'], [t[:3] for t in o['trace']]):
         items, n, data, trail, dt = before
         if dt != (after[4]): continue
         try: wcur = dtype_info(c['dtype'])[1] if dt == str(__import__('bitstring').Array(c['dtype']).dtype) else None
@@ -488,7 +790,7 @@ def coq_check(c, obs):
         elif op == 'append' and r[0] == 'err' and trail:
             terms.append(f"rbits_eqb (arr_append {wcur} {D} (repeat false {wcur}%nat)) (Err ValueError)")
     # element-wise operators on int items, whatever the dtype has become by now
-    for st, (before, r, after) in zip(c['steps'], o['trace']):
+    for st, (before, r, after) in zip(c['steps'], [t[:3] for t in o['trace']]):
         items, n, data, trail, dt = before
         wi = int_dt(dt)
         if wi is None or r == ['ok', 'skip'] or (r[0] == 'err' and r[1] != 'ValueError'): continue
